@@ -1,1 +1,287 @@
-fn main() {}
+//! C18 — rulesets can be shared across threads and evaluated from any task.
+//! This binary is the only code that requires Send/Sync of reval's types and futures: if it stops
+//! compiling with an auto-trait error, ./check reports the violation (static half). The dynamic half
+//! runs N concurrent evaluations of one shared ruleset on a multi-threaded runtime and on raw threads.
+
+use reval::expr::Index;
+use reval::prelude::*;
+use reval::ruleset::Outcome;
+use rvv::core::*;
+use rvv::data::*;
+use rvv::gen::{self, Dec};
+use rvv::model::eval as me;
+use rvv::probe::{self, SetSpec};
+use rvv::props::setcommon::*;
+use serde_json::json;
+use std::collections::BTreeMap;
+use std::sync::atomic::{AtomicUsize, Ordering};
+use std::sync::Arc;
+
+// ---- static half ---------------------------------------------------------------------------
+
+fn ss<T: Send + Sync>() {}
+fn send<T: Send>(_: &T) {}
+
+#[allow(dead_code)]
+fn static_assertions() {
+    ss::<RuleSet>();
+    ss::<Rule>();
+    ss::<Expr>();
+    ss::<Value>();
+    ss::<Symbols>();
+    ss::<Index>();
+    ss::<Outcome<'static>>();
+    ss::<reval::Error>();
+    ss::<reval::parse::Error>();
+    ss::<Builder>();
+    let rs: RuleSet = ruleset().build();
+    let v = Value::None;
+    let e = Expr::value(1);
+    let shareable_input: u8 = 5;
+    send(&e.evaluate(&v));
+    send(&rs.evaluate_value(&v));
+    send(&rs.evaluate(&shareable_input));
+    send(&rs.evaluate(&v_serializable()));
+}
+
+#[derive(serde::Serialize)]
+struct Facts {
+    id: u32,
+    names: Vec<String>,
+}
+
+fn v_serializable() -> Facts {
+    Facts { id: 1, names: vec![] }
+}
+
+// ---- dynamic half --------------------------------------------------------------------------
+
+type Outs = Vec<(String, Result<Value, String>)>;
+
+fn detach(out: Vec<Outcome>) -> Outs {
+    out.into_iter().map(|o| (o.rule.name().to_string(), o.value.map_err(|e| me::err_class(&e)))).collect()
+}
+
+fn same_outs(a: &Outs, b: &Outs) -> bool {
+    a.len() == b.len()
+        && a.iter().zip(b).all(|((n1, v1), (n2, v2))| {
+            n1 == n2
+                && match (v1, v2) {
+                    (Ok(x), Ok(y)) => same_value(x, y, true),
+                    (Err(x), Err(y)) => x == y,
+                    _ => false,
+                }
+        })
+}
+
+#[derive(Clone, Debug)]
+struct Case {
+    spec: SetSpec,
+    n: usize,
+    raw_threads: bool,
+}
+
+fn facts(id: usize) -> Value {
+    rvv::pool::map(&[("id", Value::Int(1000 + id as i128)), ("vi", Value::Int(5))])
+}
+
+fn attributed(log: &[(String, String)], id: usize) -> Vec<(String, String)> {
+    let marker = format!("[i{},", 1000 + id);
+    let mut v: Vec<_> = log.iter().filter(|(_, a)| a.contains(&marker)).cloned().collect();
+    v.sort();
+    v
+}
+
+fn gen_case(bytes: &[u8]) -> Case {
+    let mut d = Dec::new(bytes);
+    let fns = gen_fns(&mut d, false);
+    let nrules = 1 + d.below(4);
+    let rules = (0..nrules)
+        .map(|i| {
+            let depth = 1 + d.below(3) as u32;
+            (format!("r{i}"), gen_call_expr(&mut d, depth, true))
+        })
+        .collect();
+    let n = *d.pick(&[2usize, 4, 16]);
+    Case {
+        spec: SetSpec { rules, fns, symbols: BTreeMap::new(), suspend: 1 + d.below(3) as u32 },
+        n,
+        raw_threads: d.bool(),
+    }
+}
+
+fn case_json(c: &Case) -> serde_json::Value {
+    json!({"spec": spec_to_json(&c.spec), "n": c.n, "raw_threads": c.raw_threads})
+}
+
+fn case_from_json(j: &serde_json::Value) -> Option<Case> {
+    Some(Case { spec: spec_from_json(j.get("spec")?)?, n: j.get("n")?.as_u64()? as usize, raw_threads: j.get("raw_threads")?.as_bool()? })
+}
+
+struct Overlap {
+    inflight: AtomicUsize,
+    max: AtomicUsize,
+}
+
+fn check(rt: &tokio::runtime::Runtime, c: &Case, overlap_seen: &AtomicUsize) -> Verdict {
+    // sequential baseline
+    let base = probe::build(&SetSpec { suspend: 0, ..c.spec.clone() }, false);
+    let mut baselines = vec![];
+    for k in 0..c.n {
+        base.log.lock().unwrap().clear();
+        let out = detach(block_on(base.ruleset.evaluate_value(&facts(k))).expect("evaluate_value"));
+        let log = attributed(&base.log.lock().unwrap(), k);
+        baselines.push((out, log));
+    }
+    let built = probe::build(&c.spec, !c.raw_threads);
+    let log = built.log.clone();
+    let rs = Arc::new(built.ruleset);
+    let ov = Arc::new(Overlap { inflight: AtomicUsize::new(0), max: AtomicUsize::new(0) });
+    let results: Vec<Result<Outs, String>> = if c.raw_threads {
+        std::thread::scope(|s| {
+            let handles: Vec<_> = (0..c.n)
+                .map(|k| {
+                    let rs = rs.clone();
+                    let ov = ov.clone();
+                    s.spawn(move || {
+                        let now = ov.inflight.fetch_add(1, Ordering::SeqCst) + 1;
+                        ov.max.fetch_max(now, Ordering::SeqCst);
+                        let f = facts(k);
+                        let out = detach(block_on(rs.evaluate_value(&f)).expect("evaluate_value"));
+                        ov.inflight.fetch_sub(1, Ordering::SeqCst);
+                        out
+                    })
+                })
+                .collect();
+            handles.into_iter().map(|h| h.join().map_err(|_| "thread panicked".to_string())).collect()
+        })
+    } else {
+        rt.block_on(async {
+            let handles: Vec<_> = (0..c.n)
+                .map(|k| {
+                    let rs = rs.clone();
+                    let ov = ov.clone();
+                    tokio::spawn(async move {
+                        let now = ov.inflight.fetch_add(1, Ordering::SeqCst) + 1;
+                        ov.max.fetch_max(now, Ordering::SeqCst);
+                        let f = facts(k);
+                        let out = detach(rs.evaluate_value(&f).await.expect("evaluate_value"));
+                        ov.inflight.fetch_sub(1, Ordering::SeqCst);
+                        out
+                    })
+                })
+                .collect();
+            let mut v = vec![];
+            for h in handles {
+                v.push(h.await.map_err(|e| format!("task failed: {e}")));
+            }
+            v
+        })
+    };
+    if ov.max.load(Ordering::SeqCst) >= 2 {
+        overlap_seen.fetch_add(1, Ordering::Relaxed);
+    }
+    let log = log.lock().unwrap().clone();
+    for (k, r) in results.iter().enumerate() {
+        let out = match r {
+            Ok(o) => o,
+            Err(e) => return Err(Issue::new("threads:panic", format!("concurrent evaluation {k} failed: {e}; {}", case_json(c)))),
+        };
+        if !same_outs(out, &baselines[k].0) {
+            return Err(Issue::new(
+                "threads:outcomes-differ",
+                format!("concurrent evaluation {k} differs from the sequential one; {}", case_json(c)),
+            ));
+        }
+        if attributed(&log, k) != baselines[k].1 {
+            return Err(Issue::new(
+                "threads:invocations-differ",
+                format!(
+                    "concurrent evaluation {k} invoked {:?}, sequentially {:?}; {}",
+                    attributed(&log, k),
+                    baselines[k].1,
+                    case_json(c)
+                ),
+            ));
+        }
+    }
+    Ok(())
+}
+
+fn main() {
+    let args: Vec<String> = std::env::args().collect();
+    let verif_dir = std::env::var("VERIF_DIR").unwrap_or_else(|_| "/verif".into());
+    install_panic_hook();
+    let rt = tokio::runtime::Builder::new_multi_thread().worker_threads(8).enable_all().build().expect("tokio runtime");
+    let overlap_seen = AtomicUsize::new(0);
+    if args.len() >= 4 && args[2] == "--replay" {
+        let text = std::fs::read_to_string(&args[3]).expect("read replay file");
+        if !text.trim_start().starts_with('{') {
+            println!("replay file is a compiler log: re-run ./check C18 quick to re-check the static assertions");
+            std::process::exit(2);
+        }
+        let j: serde_json::Value = serde_json::from_str(&text).expect("json");
+        let case = j.get("case").cloned().unwrap_or(j);
+        let c = case_from_json(&case).expect("decode case");
+        for _ in 0..50 {
+            if let Err(i) = check(&rt, &c, &overlap_seen) {
+                println!("DETAIL property=C18 sig={} {}", i.sig, i.msg);
+                println!("VIOLATION property=C18 replay={}", args[3]);
+                std::process::exit(1);
+            }
+        }
+        println!("REPLAY property=C18 holds on {} (50 runs)", args[3]);
+        return;
+    }
+    let tier = match args.get(2).map(|s| s.as_str()) {
+        Some("thorough") => Tier::Thorough,
+        _ => Tier::Quick,
+    };
+    let ctx = Ctx::new("C18", tier, env_seed(), &verif_dir);
+    ctx.set_rule(
+        "Static half (precondition, decided by the compiler): Send + Sync instantiations for RuleSet, Rule, Expr, Value, Symbols, \
+         Index, Outcome<'static>, reval::Error, parse::Error, Builder and Send for the futures of Expr::evaluate, \
+         RuleSet::evaluate_value and RuleSet::evaluate(&impl Serialize + Sync); this binary does not build otherwise. Dynamic half \
+         (generated): call-heavy rulesets with probes that yield, N in {2, 4, 16} evaluations of one Arc<RuleSet>, each with its own \
+         input id, spawned on a tokio multi-thread runtime (tasks migrate between workers at every yield) or on raw OS threads. \
+         Oracle: every outcome vector and every evaluation's attributed invocation multiset equals the sequential baseline. \
+         Non-trivial: >= 2 evaluations were in flight at the same time (measured) and every call suspends at least once.",
+    );
+    ctx.assume("real threads sample interleavings, they do not enumerate them; reval holds no shared mutable state, so this is weak evidence by design");
+    let n = tier.pick(1500u64, 40_000u64);
+    // cases run sequentially at the top level: each case is itself multi-threaded
+    let t0 = std::time::Instant::now();
+    let mut acc = Acc::default();
+    let mut failed = false;
+    for i in 0..n {
+        let mut bytes = vec![];
+        let mut x = ctx.seed.wrapping_mul(0x9E3779B97F4A7C15).wrapping_add(i.wrapping_mul(0xD1B54A32D192ED03));
+        for _ in 0..40 {
+            x ^= x << 13;
+            x ^= x >> 7;
+            x ^= x << 17;
+            bytes.extend_from_slice(&x.to_le_bytes());
+        }
+        let c = gen_case(&bytes);
+        let before = overlap_seen.load(Ordering::Relaxed);
+        let r = check(&rt, &c, &overlap_seen);
+        let overlapped = overlap_seen.load(Ordering::Relaxed) > before;
+        acc.case(
+            if c.raw_threads { "raw-threads" } else { "tokio-multi-thread" },
+            overlapped,
+            || format!("n={} suspend={} rules {}", c.n, c.spec.suspend, c.spec.rules.iter().map(|(n, e)| format!("{n}: {}", show_expr(e))).collect::<Vec<_>>().join("; ")),
+        );
+        if let Err(issue) = r {
+            if let Err(issue) = ctx.triage(issue, &|| case_json(&c).to_string()) {
+                ctx.violation("threads", case_json(&c), &issue);
+                failed = true;
+                break;
+            }
+        }
+    }
+    let _ = failed;
+    ctx.extra("cases_with_measured_overlap", json!(overlap_seen.load(Ordering::Relaxed)));
+    ctx.extra("static_assertions", json!("compiled: Send+Sync for 10 public types, Send for 4 evaluation futures"));
+    ctx.finish_phase("concurrent-evaluations", acc, false, t0);
+    std::process::exit(ctx.finish());
+}
